@@ -14,6 +14,23 @@ Local Open Scope list_scope.
 
 Inductive dsig_result := DOk (verified : node) | DMissing | DErr.
 
+(* validateElementSignature(el) (decode_response.go; the signature step of the Response root and of both logout messages):
+   goxmldsig's answer, except that "missing signature" — which only says that no ds:Signature REFERENCES el's ID — is not
+   believed of an element that envelops a ds:Signature as a direct child (etreeutils.NSFindOneChild(el, dsig.Namespace,
+   dsig.SignatureTag): default context + el's own declarations, every child element looked at costs one visit of the 1000
+   budget, is sub-contexted and must have a declared prefix; first match wins).  Such an element carries a signature that does
+   not verify for it (edited / shadowed ID attribute): dsig.ErrInvalidSignature; a failing lookup is returned as the error. *)
+Definition validate_element_signature (dsig : node -> dsig_result) (el : node) : dsig_result :=
+  match dsig el with
+  | DMissing =>
+      match ns_find_one_child el ds_ns ds_signature_tag with
+      | Ok None => DMissing
+      | Ok (Some _) => DErr           (* dsig.ErrInvalidSignature *)
+      | Err _ => DErr                 (* findErr *)
+      end
+  | r => r
+  end.
+
 Fixpoint remove_indices_from (i : nat) (idx : list nat) (l : list node) : list node :=
   match l with
   | [] => []
@@ -93,7 +110,7 @@ Section Response.
       let r := with_flag r false (r_assertions r) (r_encrypted_count r) in
       check validate cfg now r; Ok r
     else
-      match dsig root with
+      match validate_element_signature dsig root with
       | DErr => Err (EOther "signature verification failed")
       | DOk signed =>
           do signed' <- decrypt_assertions signed;
@@ -114,7 +131,7 @@ Section Response.
   (* the signature step shared by both logout validators: element to decode and flag *)
   Definition logout_signature_step (cfg : config) (root : node) : res (node * bool) :=
     if cfg_skip_sig cfg then Ok (root, false)
-    else match dsig root with
+    else match validate_element_signature dsig root with
          | DOk v => Ok (v, true)
          | DMissing => Ok (root, false)
          | DErr => Err (EOther "signature verification failed")
@@ -128,6 +145,49 @@ Section Response.
 
   Definition validate_logout_request_tree (cfg : config) (root : node) : res logout_request :=
     do ef <- logout_signature_step cfg root;
+    do r <- other (unmarshal_logout_request (fst ef));
+    let r := lq_with_flag r (snd ef) in
+    check validate_logout_request cfg r; Ok r.
+  (* ---- the code BEFORE the repair 541e863 (finding F12): validateElementSignature was goxmldsig's answer as it came, so a
+     present signature that no longer references its element (ErrMissingSignature) continued as "unsigned".  Kept for the
+     refutation C02_present_signature_downgraded_before_repair_refuted; nothing else is stated about these. ---- *)
+  Definition validate_response_tree_original (cfg : config) (now : instant) (root : node) : res response :=
+    if cfg_skip_sig cfg then
+      do r <- other (unmarshal_response root);
+      let r := with_flag r false (r_assertions r) (r_encrypted_count r) in
+      check validate cfg now r; Ok r
+    else
+      match dsig root with
+      | DErr => Err (EOther "signature verification failed")
+      | DOk signed =>
+          do signed' <- decrypt_assertions signed;
+          do r <- other (unmarshal_response signed');
+          let r := with_flag r true (r_assertions r) (r_encrypted_count r) in
+          check validate cfg now r; Ok r
+      | DMissing =>
+          do r0 <- unmarshal_response root;
+          do root' <- decrypt_assertions root;
+          do signed <- signed_assertions root';
+          let r := with_flag r0 false signed 0 in
+          check validate cfg now r; Ok r
+      end.
+
+  Definition logout_signature_step_original (cfg : config) (root : node) : res (node * bool) :=
+    if cfg_skip_sig cfg then Ok (root, false)
+    else match dsig root with
+         | DOk v => Ok (v, true)
+         | DMissing => Ok (root, false)
+         | DErr => Err (EOther "signature verification failed")
+         end.
+
+  Definition validate_logout_response_tree_original (cfg : config) (root : node) : res logout_response :=
+    do ef <- logout_signature_step_original cfg root;
+    do r <- other (unmarshal_logout_response (fst ef));
+    let r := lr_with_flag r (snd ef) in
+    check validate_logout_response cfg r; Ok r.
+
+  Definition validate_logout_request_tree_original (cfg : config) (root : node) : res logout_request :=
+    do ef <- logout_signature_step_original cfg root;
     do r <- other (unmarshal_logout_request (fst ef));
     let r := lq_with_flag r (snd ef) in
     check validate_logout_request cfg r; Ok r.
